@@ -13,7 +13,7 @@ def dump_legS(leg, io):
 
 def dump_arr(a, io):
     q = np.asarray(a._qdata)
-    return dict(legs=[dump_legS(l, io) for l in a.legs], qtotal=[int(x) for x in a.qtotal],
+    return dict(legs=[dump_legS(l, io) for l in a.legs], qtotal=[int(x) for x in np.asarray(a.qtotal).reshape(-1)],
                 qdata=[[int(x) for x in r] for r in q] if q.ndim == 2 else [],
                 sorted=bool(a._qdata_sorted), ndata=len(a._data), labels=list(a._labels))
 
@@ -113,6 +113,8 @@ def oracle_arr(a):
         if isinstance(l, LegPipe):
             out += oracle_pipe(l, f'pipe {i}')
     mods = [int(m) for m in a.chinfo.mod]
+    if np.asarray(a.qtotal).shape != (len(mods),):
+        return out + [f'qtotal has shape {np.asarray(a.qtotal).shape} for {len(mods)} charges: {a.qtotal!r}']
     qt = [int(x) for x in a.qtotal]
     if len(qt) != len(mods) or valid(mods, qt) != qt:
         out.append(f'qtotal {qt} invalid for mod {mods}')
